@@ -336,7 +336,8 @@ CHECKS = {
                   "vm_compute correspondence + source-to-Coq translation of "
                   "check_response, check_credentials, the check_digest "
                   "handler with proved equality to the model"
-                  " + source-to-Coq translation of Request.authorization (header parsing) and the request path with proved equality to the model"),
+                  " + source-to-Coq translation of Request.authorization (header parsing) and the request path with proved equality to the model"
+                  " + source-to-Coq translation of the Digest challenge (results.unauthorized) with proved equality to a model whose issued nonce and opaque are proved to verify"),
     "C12": dict(
         text="Theorems with NO hypothesis on the request path (any code "
              "points, NUL, repeated or missing leading slashes, dot "
